@@ -153,6 +153,8 @@ def parse_consts(toks):
         # const NAME : & str = "..." ;
         if toks[i + 2][1] == ':' and toks[i + 3][1] == '&' and toks[i + 4][1] == 'str' and toks[i + 5][1] == '=' and toks[i + 6][0] == 'str':
             consts[toks[i + 1][1]] = unquote(toks[i + 6][1])
+        elif toks[i + 2][1] == ':' and toks[i + 3][1] == 'usize' and toks[i + 4][1] == '=' and toks[i + 5][0] == 'num' and toks[i + 5][1].isdigit():
+            consts[toks[i + 1][1]] = int(toks[i + 5][1])
         i += 1
     return consts
 
@@ -310,7 +312,7 @@ def list_expr(body):
 
 EXTRA_HASH_STMT = 'extra_hash_files . push ( cwd . join ( path ) )'
 TOO_HARD_STMT = ('too_hard_for_preprocessor_cache_mode = match arg . flag_str ( ) { Some ( s ) if s == "-Xpreprocessor" || s == "-Wp" '
-                 '=> Some ( arg . to_os_string ( ) ) , _ => None , }')
+                 '=> Some ( arg . to_os_string ( ) ) , _ => too_hard_for_preprocessor_cache_mode , }')
 
 
 def arm_dest(body):
@@ -560,7 +562,13 @@ def read_all(repo):
                 from_ext=parse_from_file_name(comp),
                 lang_gcc=parse_lang_to_arg(gcc, 'language_to_gcc_arg'),
                 lang_clang=parse_lang_to_arg(clang, 'language_to_clang_arg'),
-                arch_flag=consts.get('ARCH_FLAG'))
+                arch_flag=consts.get('ARCH_FLAG'),
+                expand_limit=consts.get('MAX_INCLUDE_FILE_EXPANSIONS'))
+    if not isinstance(spec['expand_limit'], int):
+        raise Unrecognised('const MAX_INCLUDE_FILE_EXPANSIONS: usize not found')
+    want = 'if self . expansions_left == 0 { return Some ( arg ) ; } self . expansions_left - = 1 ;'
+    if want not in text(gcc) or 'expansions_left : MAX_INCLUDE_FILE_EXPANSIONS ,' not in text(gcc):
+        raise Unrecognised('ExpandIncludeFile::next: the expansion bound changed')
     spec.update(parse_parse_arguments(gcc, variants))
     if spec['arch_flag'] is None:
         raise Unrecognised('const ARCH_FLAG not found')
@@ -600,6 +608,7 @@ def emit(spec, argtypes_v):
         A('  [ ' + ';\n    '.join(coq_row(r) for r in spec[name]) + ' ].')
         A('')
     A('Definition arch_flag : bytes := %s.' % coq_bytes(spec['arch_flag']))
+    A('Definition expand_limit : N := %d.' % spec['expand_limit'])
     A('')
     A('(* arms `=> {}` of the first match of the main loop: constructors without any effect on the parser state *)')
     A('Definition noeffect_class : list argdata := [ %s ].' % '; '.join(spec['noeffect']))
